@@ -460,9 +460,16 @@ def do_box(run, op):
 def _density(op):
     g = np.random.Generator(np.random.PCG64(op["gseed"]))
     m = op["m"]
-    t = np.sort(g.uniform(0, 1, m))
-    t[0], t[-1] = 0.0, 1.0
-    keep = np.concatenate(([True], np.diff(t) > 1e-3))
+    if m > 2000:
+        # a finely tabulated density: an (almost) even grid of m points, every point kept
+        t = np.linspace(0.0, 1.0, m) + g.uniform(-0.3, 0.3, m) / m
+        t.sort()
+        t[0], t[-1] = 0.0, 1.0
+        keep = np.ones(m, dtype=bool)
+    else:
+        t = np.sort(g.uniform(0, 1, m))
+        t[0], t[-1] = 0.0, 1.0
+        keep = np.concatenate(([True], np.diff(t) > 1e-3))
     t = t[keep]
     if t.size < 3:
         t = np.array([0.0, 0.4, 1.0])
